@@ -372,8 +372,58 @@ func (res *CheckResult) checkExpression(lit parser.ValueExpr, requiredType strin
 	case *parser.StringLiteral:
 		res.assertHasType(lit, requiredType, TypeString)
 	case *parser.BinaryInfix:
-		res.checkExpression(lit.Left, TypeAny)
-		res.checkExpression(lit.Right, TypeAny)
+		// "+" and "-" take two numbers or two monetaries, and give a value of that same type
+		operandsType := res.typeOf(lit.Left)
+		switch operandsType {
+		case TypeNumber, TypeMonetary:
+			res.assertHasType(lit, requiredType, operandsType)
+			res.checkExpression(lit.Left, operandsType)
+			res.checkExpression(lit.Right, operandsType)
+
+		case TypeAny:
+			// the type of the left operand is not known (that is reported on its own)
+			res.checkExpression(lit.Left, TypeAny)
+			res.checkExpression(lit.Right, TypeAny)
+
+		default:
+			res.Diagnostics = append(res.Diagnostics, Diagnostic{
+				Range: lit.Left.GetRange(),
+				Kind: &TypeMismatch{
+					Expected: TypeNumber + "|" + TypeMonetary,
+					Got:      operandsType,
+				},
+			})
+			res.checkExpression(lit.Left, TypeAny)
+			res.checkExpression(lit.Right, TypeAny)
+		}
+	}
+}
+
+// The static type of an expression, or TypeAny when it cannot be told
+func (res *CheckResult) typeOf(lit parser.ValueExpr) string {
+	switch lit := lit.(type) {
+	case *parser.Variable:
+		decl, ok := res.declaredVars[lit.Name]
+		if !ok || decl.Type == nil || !isTypeAllowed(decl.Type.Name) {
+			return TypeAny
+		}
+		return decl.Type.Name
+	case *parser.MonetaryLiteral:
+		return TypeMonetary
+	case *parser.AccountLiteral:
+		return TypeAccount
+	case *parser.RatioLiteral:
+		return TypePortion
+	case *parser.AssetLiteral:
+		return TypeAsset
+	case *parser.NumberLiteral:
+		return TypeNumber
+	case *parser.StringLiteral:
+		return TypeString
+	case *parser.BinaryInfix:
+		return res.typeOf(lit.Left)
+	default:
+		return TypeAny
 	}
 }
 
